@@ -293,6 +293,21 @@ example : groupWf (n := 1) (ng := 2)
     (fun g => if g = 0 then ((1, 0, 0), (0, 1, 0), (0, 0, 1)) else ((-1, 0, 0), (0, -1, 0), (0, 0, -1)))
     (fun _ i => i) (fun h g => h + g) = true := by decide
 
+/-- hypotheses of `wang_commensurate_noop` are satisfiable: `Lex` (two cells), `ζ = −1`, the point
+`q = 1/2` is not the zero point -/
+example : Lex.wf = true ∧ P3.Dvd Lex.Nd (Lex.kq 0) ∧ (1 : Fin 2) ≠ 0 := ⟨Lex_wf, by decide, by decide⟩
+
+/-- hypotheses of `born_symmetrize_projection` are satisfiable: identity and inversion, `R = ±1` -/
+example : ∃ (R Rinv : Fin 2 → T3 ℚ), (∀ h g : Fin 2, R (h + g) = matMul3 (R h) (R g)) ∧
+    (∀ g, matMul3 (R g) (Rinv g) = one3 ∧ matMul3 (Rinv g) (R g) = one3) := by
+  refine ⟨fun g a b => if a = b then (if g = 0 then 1 else -1) else 0,
+          fun g a b => if a = b then (if g = 0 then 1 else -1) else 0, ?_, ?_⟩
+  · intro h g; funext a b
+    fin_cases h <;> fin_cases g <;> fin_cases a <;> fin_cases b <;> simp [matMul3, sumFin_eq, Fin.sum_univ_three]
+  · intro g
+    constructor <;> funext a b <;> fin_cases g <;> fin_cases a <;> fin_cases b <;>
+      simp [matMul3, one3, sumFin_eq, Fin.sum_univ_three]
+
 /-- hypotheses of `wang_gamma_limit` are satisfiable: one atom, one cell, unit phase -/
 example : (∀ j : Fin 1, (Finset.univ.filter fun k : Fin 1 => (fun _ => 0 : Fin 1 → Nat) k = ((fun _ => 0 : Fin 1 → Fin 1) j).1).card = 1 / 1) := by
   decide
